@@ -417,6 +417,12 @@ fn main() {
         std::process::exit(if bad.is_empty() { 0 } else { 1 });
     }
 
+    let valid: Option<std::collections::HashSet<usize>> = if cfg!(debug_assertions) {
+        None
+    } else {
+        Some(mccore::report::load_valid(PROP).unwrap_or_else(|| rep.machinery("release pass needs the debug pass's .work/C12.valid.json (run `./check C12 thorough`)")))
+    };
+    let accepted_list: std::sync::Mutex<Vec<usize>> = Default::default();
     let rejected = std::sync::atomic::AtomicU64::new(0);
     par_blocks(cs.len(), |bi, tid| {
         let c = &cs[bi];
@@ -425,10 +431,17 @@ fn main() {
         for &w in ws.iter() {
             let Some(spec) = spec_of(c, w) else { continue };
             journal.begin(tid, bi as u64, w as u64);
-            if build_valid(&spec).is_err() {
+            let ok = match &valid {
+                Some(v) => v.contains(&bi),
+                None => build_valid(&spec).is_ok(),
+            };
+            if !ok {
                 rejected.fetch_add(1, std::sync::atomic::Ordering::Relaxed);
                 journal.end(tid);
                 break;
+            }
+            if w == ws[0] {
+                accepted_list.lock().unwrap().push(bi);
             }
             h.evaluations += 6;
             h.states += 6;
@@ -460,6 +473,11 @@ fn main() {
         }
         rep.merge(&h);
     });
+    if cfg!(debug_assertions) {
+        let mut v = accepted_list.into_inner().unwrap();
+        v.sort();
+        mccore::report::save_valid(PROP, &v);
+    }
     rep.set("configurations_rejected_by_validity_gate", json!(rejected.load(std::sync::atomic::Ordering::Relaxed)));
     rep.finish(&recheck);
 }
